@@ -324,7 +324,6 @@ func (spec stackSpec) otherMTU() int {
 	return spec.Multi
 }
 
-
 func genLayer(r *gen.R, smallCfg bool) layerSpec {
 	switch r.Intn(9) {
 	case 0, 1:
